@@ -72,3 +72,26 @@ pub(crate) fn record(line: String) {
 pub fn take_oracle() -> Vec<String> {
     ORACLE.with(|o| std::mem::take(&mut *o.borrow_mut()))
 }
+
+/// `Publish` has crate-private fields; build / inspect one field by field.
+pub fn make_publish(
+    dup: bool,
+    qos: protocol::QoS,
+    pkid: u16,
+    retain: bool,
+    topic: bytes::Bytes,
+    payload: bytes::Bytes,
+) -> protocol::Publish {
+    protocol::Publish {
+        dup,
+        qos,
+        pkid,
+        retain,
+        topic,
+        payload,
+    }
+}
+
+pub fn publish_parts(p: &protocol::Publish) -> (bool, protocol::QoS, u16) {
+    (p.dup, p.qos, p.pkid)
+}
